@@ -192,9 +192,6 @@ fn judge(rep: &Report, label: &str, op_def: &str, o: &Opts, inputs: &[String], r
         });
         return;
     }
-    if o.roundtrip && want.iter().any(|w| w.iter().take(2).any(|x| x.is_nan())) {
-        return; // residuals of failed tuples are not specified
-    }
     // without -d the number of decimals is kp's own choice, but it must not change at an internal batch boundary
     if o.d.is_none() && lines.len() > 25_000 {
         let decimals = |l: &str| l.split_whitespace().next().and_then(|t| t.split_once('.')).map(|x| x.1.len()).unwrap_or(0);
@@ -248,6 +245,9 @@ fn judge(rep: &Report, label: &str, op_def: &str, o: &Opts, inputs: &[String], r
                 });
                 return;
             }
+        }
+        if o.roundtrip && w.iter().take(2).any(|x| x.is_nan()) {
+            continue; // the residuals of a tuple that fails are not specified — those of its neighbours are
         }
         for (k, tok) in toks.iter().enumerate() {
             // elements that depend on a height/time given both in the line and by -z/-t are not judged
@@ -318,6 +318,7 @@ pub fn run(tier: Tier) -> Report {
         ("mixed 1-4 columns, comments, sexagesimal", vec!["# header\n55 12\n\n55:30:36N 12:45:36E 100   # trailing comment\n-33.5\n59 18 20 2001.5\n  1:30 2:15 3   \n".into()]),
         ("sexagesimal signs and hemispheres, zero degrees", vec!["-0:30:00 55:30:36\n0:30:00W 55:30:36N\n-0:15 -0:00:30\n0:45S 0:00:01.5E\n-1:30:36 +1:30:36\n12.5W 7.25S\n".into()]),
         ("comments glued to values", vec!["55 12#glued comment\n56 13 # spaced comment\n#whole line\n57 14# another\n".into()]),
+        ("failing tuples between valid ones", vec!["55 12\n0 99.9\n56 13\nNaN 12\n57 14\n".into()]),
         ("homogeneous 3 columns", vec!["55 12 100\n56 13 0\n-33.9 151.2 -5.5\n".into()]),
         ("homogeneous 4 columns", vec!["55 12 100 2001\n56 13 0 2010.5\n".into()]),
         ("two files", vec!["55 12\n56 13\n".into(), "# second file\n57 14\n58 15\n".into()]),
